@@ -147,9 +147,9 @@ def seq_items(draw, names, depth):
         vname = sub.new("d")
         item = [ts, ls, {"k": "buf", "name": vname, "lenfrom": ls["name"]}]
         items = []
-        for _ in range(draw(st.integers(0, 4))):
-            data = draw(st.binary(max_size=6))
-            items.append({ts["name"]: draw(st.integers(0, 255)), ls["name"]: len(data), vname: data})
+        for _ in range(draw(st.one_of(st.integers(0, 4), st.integers(0, 4), st.integers(0, 4), st.sampled_from([255, 256, 300])))):
+            data = draw(st.binary(max_size=6)) if len(items) < 6 else items[len(items) % 5][vname]
+            items.append({ts["name"]: len(items) % 256, ls["name"]: len(data), vname: data})
         names.n = sub.n
         return item, items
     if style == "nested":
